@@ -56,6 +56,8 @@ def lf(x):
         return FS
     if x == '<1.0>':
         return 1.0
+    if x in ('<node1>', '<node2>'):
+        return NODES[x]
     return tuple(x) if isinstance(x, list) else x
 
 
@@ -419,6 +421,25 @@ class OtoCheck(object):
 
 # ------------------------------------------------------------------ ManyToMany
 
+class Node(object):
+    """A member hashed and compared by identity (graph nodes, plain class instances)."""
+    def __init__(self, tag):
+        self.tag = tag
+
+    def __repr__(self):
+        return 'Node(%r)' % (self.tag,)
+
+
+NODES = {'<node1>': Node(1), '<node2>': Node(2)}
+
+
+def with_nodes(x):
+    """Every 'c' becomes one identity-hashed node and every 3 another (a substitution on the finished history: no draws)."""
+    if isinstance(x, list):
+        return [with_nodes(y) for y in x]
+    return '<node1>' if x == 'c' and isinstance(x, str) else '<node2>' if x == 3 and type(x) is int else x
+
+
 class M2mCheck(object):
     def ops_of(self, h):
         return h['ops']
@@ -465,8 +486,14 @@ class M2mCheck(object):
         if hub:
             init = [[k, 'hub'] for k in A[:r.choice([31, 32, 33, 40])]] + [['a', v] for v in B[3:3 + r.choice([31, 32, 36])]]
             return {'kind': 'm2m', 'init': init, 'ops': ops[:25], 'hub': True}
-        return {'kind': 'm2m', 'init': [[r.choice(A), r.choice(B)] for _ in range(r.choice([0, 0, 2, 4]))], 'ops': ops,
-                'only_inverse_kept': r.random() < 0.15}
+        h = {'kind': 'm2m', 'init': [[r.choice(A), r.choice(B)] for _ in range(r.choice([0, 0, 2, 4]))], 'ops': ops,
+             'only_inverse_kept': r.random() < 0.15}
+        if len(ops) % 4 == 1:
+            # members hashed by identity (nodes of a graph): one in four histories has its 'c' and its 3 replaced by such
+            # objects (pickling / deep-copying them makes NEW, unequal objects - nothing may route members through that)
+            h['init'], h['ops'] = with_nodes(h['init']), [op[:2] + with_nodes(op[2:]) if op[1] != 'bad' else op for op in ops]
+            h['nodes'] = True
+        return h
 
     def run(self, h, stats=None):
         du = common.load('dictutils')
@@ -655,6 +682,8 @@ class M2mCheck(object):
                 return f
             if stats is not None:
                 stats.count('m2m:' + name)
+                if h.get('nodes'):
+                    stats.count('m2m:steps-with-identity-hashed-members')
                 if len(P) >= 2:
                     stats.see(('m2m', tuple(sorted(map(repr, P)))))
         return None
